@@ -250,6 +250,10 @@ func scenarios() []scen {
 	add("xor", 4, 1, 1, "full")
 	add("xor", 3, 6, 0, "full")       // a link that retransmits eagerly: up to six re-deliveries in one short session
 	add("vproto:BB", 3, 7, 0, "full") // the same over two message rounds
+	// broadcast rounds that fold what they received into the session's hash state when they are left (as the CMP
+	// key generation does): the echo of a round must not depend on WHEN the handler computes it
+	add("vproto:UUB", 3, 0, 0, "full")
+	add("vproto:UUP", 2, 2, 1, "full")
 	add("vproto2:3", 2, 2, 1, "full")
 	add("vproto2:4", 2, 2, 1, "full")
 	add("vproto2b", 2, 2, 1, "full") // two messages of one sender in flight: the later may overtake the earlier
